@@ -747,11 +747,14 @@ class DocTest:
                 got_eval = constants.NOT_EVALED
 
                 # Extract directives and and update runtime state
-                part_directive = part.directives
-                if DEBUG:
-                    print(f'part[{partx}] directives: {part_directive}')
+                part_directive = None
                 try:
                     try:
+                        # Directives are extracted lazily, a malformed one
+                        # may only be noticed here.
+                        part_directive = part.directives
+                        if DEBUG:
+                            print(f'part[{partx}] directives: {part_directive}')
                         runstate.update(part_directive)
                     except Exception as ex:
                         msg = (
